@@ -9,12 +9,13 @@ import types
 
 from ..framework import Check, Violation
 from ..xplore import explore, run_once
-from .. import env, harness, memfs
+from .. import env, fakeserver, harness, memfs
 from ..simdev.base import World
 from ..simdev.bringup import BringUpDevice, Lazy, version_grid
 from ledgerblue.commException import CommException
 
-PIN_FILE = "/nonexistent-verif-dir/pin.txt"   # never a real path: the file lives in memfs only
+PIN_DIR = "/nonexistent-verif-dir/"
+PIN_FILE = PIN_DIR + "pin.txt"   # never a real path: the file lives in memfs only
 GOOD_PIN = b"abcd1234"
 DEFAULT_PIN = b"1234abcd"
 
@@ -22,33 +23,6 @@ DEFAULT_PIN = b"1234abcd"
 def supports(ver):
     """statement: same major version, minor.patch not newer than the manager's 5.4.1"""
     return ver[0] == 5 and (ver[1], ver[2]) <= (4, 1)
-
-
-class FakeSocketServerModule:
-    """stands in for the ``socketserver`` name inside comm.server"""
-
-    def __init__(self, record):
-        rec = record
-
-        class TCPServer:
-            allow_reuse_address = False
-
-            def __init__(self, addr, handler):
-                rec.append(("bind", addr))
-
-            def serve_forever(self):
-                rec.append(("serve_forever",))
-                cb = getattr(rec, "on_serve", None)
-                if cb is not None:
-                    cb(self)
-
-            def server_close(self):
-                rec.append(("close",))
-
-            def shutdown(self):
-                rec.append(("shutdown",))
-        self.TCPServer = TCPServer
-        self.StreamRequestHandler = object
 
 
 class DetRandom:
@@ -146,21 +120,9 @@ class C09(Check):
             if case["pin"] in ("file", "forced"):
                 fs.files[PIN_FILE] = GOOD_PIN
             environ = {"PIN": DEFAULT_PIN.decode()}
-            _unbind_random = lambda: None    # noqa: E731
-            saved = (LPIN.os, LPIN.__dict__.get("open"), None, RUN.configure_logging,
-                     SRV.socketserver, manager_ledger.os, manager_sgx.os)
             record = []
-            LPIN.os = memfs.FakeOs(fs)
-            LPIN.open = fs.open
-            _unbind_random = env.bind_random(LPIN, DetRandom())
-            RUN.configure_logging = lambda p: None
-            SRV.socketserver = FakeSocketServerModule(record)
-            fake_os = memfs.FakeOs(fs, environ)
-            manager_ledger.os = fake_os
-            manager_sgx.os = fake_os
-            for _m in (manager_ledger, manager_sgx):
-                _m.open = fs.open
-                _m.shutil = memfs.FakeShutil(fs)
+            seams = fakeserver.ManagerSeams(fs, record, DetRandom(), environ, PIN_DIR)
+            seams.install()
             options = types.SimpleNamespace(
                 pin_file=PIN_FILE, force_pin_change=case["pin"] == "forced",
                 logconfigfilepath="x", version_one=case["v1"], host="localhost", port=9999,
@@ -185,13 +147,7 @@ class C09(Check):
             except BaseException as e:   # noqa
                 crashed = type(e).__name__
             finally:
-                _unbind_random()
-                (LPIN.os, op, _ignored, RUN.configure_logging, SRV.socketserver,
-                 manager_ledger.os, manager_sgx.os) = saved
-                if op is None:
-                    LPIN.__dict__.pop("open", None)
-                else:
-                    LPIN.open = op
+                seams.restore()
             return dev, w, cfg, record, crashed, fs
         return run
 
